@@ -402,7 +402,7 @@ func genBytes(r *rand.Rand, w *world) []byte {
 					// keep as it is: decode exactly what was encoded
 				}
 			}
-			return spliceDict(r, p)
+			return spliceDict(r, stampLength(r, p))
 		}
 	}
 	n := pickLen(r)
@@ -432,7 +432,32 @@ func genBytes(r *rand.Rand, w *world) []byte {
 	if n > 0 && r.Intn(4) == 0 && len(dictInts) > 0 {
 		p[r.Intn(min(n, 8))] = byte(dictInts[r.Intn(len(dictInts))])
 	}
-	return spliceDict(r, p)
+	return spliceDict(r, stampLength(r, p))
+}
+
+// self-describing formats carry their own length near the front: one time in six, write len(p)-delta at one of the
+// first positions, in 1..4 bytes, in either byte order
+func stampLength(r *rand.Rand, p []byte) []byte {
+	if len(p) < 2 || r.Intn(6) != 0 {
+		return p
+	}
+	w := 1 + r.Intn(4)
+	pos := r.Intn(5)
+	if pos+w > len(p) {
+		return p
+	}
+	v := uint32(len(p) - r.Intn(9))
+	for i := 0; i < w; i++ {
+		if r.Intn(2) == 0 || w == 1 {
+			p[pos+i] = byte(v >> (8 * uint(w-1-i))) // big-endian
+		} else {
+			p[pos+i] = byte(v >> (8 * uint(i)))
+		}
+	}
+	if r.Intn(3) == 0 && pos > 0 {
+		p[0] = 0
+	}
+	return p
 }
 
 // literal strings of the sources, written over the start, the end or the middle of a byte string
@@ -761,10 +786,19 @@ func (w *world) add(v reflect.Value) {
 
 func (w *world) has(v reflect.Value) bool {
 	k := typeKey(v.Type())
-	d := dumpVals([]reflect.Value{v})
 	for _, e := range w.pool {
-		if e.key == k && dumpVals([]reflect.Value{e.v}) == d {
-			return true
+		if e.key != k || e.v.Kind() != v.Kind() {
+			continue
+		}
+		switch v.Kind() {
+		case reflect.String:
+			if e.v.String() == v.String() {
+				return true
+			}
+		case reflect.Slice:
+			if v.Type().Elem().Kind() == reflect.Uint8 && e.v.Len() == v.Len() && bytes.Equal(e.v.Bytes(), v.Bytes()) {
+				return true
+			}
 		}
 	}
 	return false
